@@ -15,8 +15,12 @@ import traceback
 from concurrent.futures import ProcessPoolExecutor, as_completed
 
 
+SPLIT_DEPTH = 8
+
+
 def _verify_one(args):
-    pid, idx, tier = args
+    pid, idx, tier = args[:3]
+    root = args[3] if len(args) > 3 else None
     import z3  # noqa
 
     from pyvc import api
@@ -26,7 +30,7 @@ def _verify_one(args):
     built = mod.build(reg)
     spec = built["verify"][idx]
     try:
-        return api.verify_function(reg, spec, tier, pid)
+        return api.explore_function(reg, spec, tier, pid, root=root, split_depth=SPLIT_DEPTH)
     except Exception:  # noqa
         return {"fn": f"{spec.file}:{spec.qual}", "status": "crash", "detail": traceback.format_exc()[-3000:], "obligations": []}
 
@@ -82,10 +86,47 @@ def main():
             jobs = [("v", i) for i in range(n)] + [("l", i) for i in range(nl)]
             if a.only:
                 jobs = [j for j in jobs if a.only in (f"{built['verify'][j[1]].file}:{built['verify'][j[1]].qual}" if j[0] == "v" else "lemma:" + built["lemmas"][j[1]][0]) or any(a.only.find(x) >= 0 for x in [])]
-            with ProcessPoolExecutor(max_workers=max(1, min(a.jobs, len(jobs) or 1))) as ex:
-                futs = [ex.submit(_verify_one if k == "v" else _lemma_one, (pid, i, a.tier)) for k, i in jobs]
-                for f in futs:
-                    reports.append(f.result())
+            timeout_ms = 10000 if a.tier == "quick" else 60000
+            with ProcessPoolExecutor(max_workers=max(1, a.jobs)) as ex:
+                futs = [(ex.submit(_verify_one if k == "v" else _lemma_one, (pid, i, a.tier)), k, i) for k, i in jobs]
+                pending = []  # (report, future lists) — queries are solved while other functions still explore
+                merged = []
+                for f, k, i in futs:
+                    r = f.result()
+                    # deep functions: subtrees below SPLIT_DEPTH are explored by parallel workers
+                    todo = [ex.submit(_verify_one, (pid, i, a.tier, root)) for root in r.get("roots", [])] if k == "v" else []
+                    while todo:
+                        sub = todo.pop(0).result()
+                        if sub.get("status") != "ok":
+                            r["status"], r["detail"] = sub.get("status"), sub.get("detail", "")
+                            r.setdefault("obligations", []).extend(sub.get("obligations", []))
+                            continue
+                        r["queries"] = r.get("queries", []) + sub.get("queries", [])
+                        r["covers"] = r.get("covers", []) + sub.get("covers", [])
+                        r["paths"] = r.get("paths", 0) + sub.get("paths", 0)
+                        todo += [ex.submit(_verify_one, (pid, i, a.tier, root)) for root in sub.get("roots", [])]
+                    merged.append(r)
+                for r in merged:
+                    if "queries" in r and isinstance(r["queries"], list):
+                        seen = {}
+                        qf = []
+                        for q in r["queries"]:
+                            if q.get("trivial"):
+                                qf.append(None)
+                            else:
+                                key = hash(q["smt2"])
+                                if key not in seen:
+                                    seen[key] = ex.submit(api.solve_text, (q["smt2"], timeout_ms))
+                                qf.append(seen[key])
+                        cf_ = [ex.submit(api.cover_text, c) for c in r.get("covers", [])[:6]]
+                        pending.append((r, qf, cf_))
+                    else:
+                        reports.append(r)
+                for r, qf, cf_ in pending:
+                    results = [("discharged", "simplify", 0.0, None) if x is None else x.result() for x in qf]
+                    for q in r["queries"]:
+                        q.pop("smt2", None)
+                    reports.append(api.assemble(r, results, [c.result() for c in cf_]))
             obligations, functions, crash = [], [], None
             canaries = canaries_ok = 0
             for r in reports:
